@@ -11,7 +11,7 @@ import (
 
 func init() {
 	register(&Property{
-		ID: "C06",
+		ID:          "C06",
 		Explanation: "Decides a structural necessary condition of 'TypeScript types are erased without runtime effect': type syntax is skipped as if it were whitespace, so the type-skipping code must have no effect on parser state other than advancing the lexer, and speculative (backtracking) parses must leave no residue. R1 skip-purity: over the static call closure of every (*parser).skipTypeScript* function and of the backtracking family, every store rooted at the parser is inside p.lexer, and no symbol/scope/import-record/usage/diagnostic side effect is reachable (reviewed exceptions listed with reasons); R2 backtrack-shape: each trySkip…WithBacktracking function snapshots p.lexer first, restores it in a deferred closure on LexerPanic (re-panicking anything else) and keeps the log-disabled flag consistent. R3 type-argument-followers: the per-token answer of tsCanFollowTypeArgumentsInExpression is extracted from SSA as a finite table (the function touches the token only through equality tests) and must be the constant true for `(`, no-substitution templates and template heads and the constant false for `<`, the `>` family, `+` and `-`, as in TypeScript's canFollowTypeArgumentsInExpression. The constant-folding clause for enums is shared with C03. R5 dirinfo-follows-path: after finalizeResolve rewrites a path to its real path, no directory-info value is used before a fresh lookup. R6 shared-ast-immutability: the C09/R2 frozen-AST analysis. R7 token-enum-vs-character: no value of js_lexer.T / css_lexer.T is compared with a character literal (module-wide, AST + types). R8 enum-inlining-order-independent: the C08/R1 map-order classification restricted to the loops that refer to the cross-module TSEnums tables. NOT covered: that typed and untyped programs print identically; enum/namespace/decorator semantics.",
 		Run: func(p *Prog, tier string) []*RuleResult {
 			return []*RuleResult{c06SkipPurity(p), c06BacktrackShape(p), c06TypeArgFollowers(p), c06EnumDiscriminant(p), c06DirInfoFollowsPath(p), renamed(c09Frozen(p), "C06/R6 shared-ast-immutability", "enum members and constants of other files are inlined late (print time) into the importing file's nodes; the folded value may never be written back into the cached AST of the importer, or a rebuild after the enum changed prints the old member (same analysis as C09/R2)"), tokenVsCharacter(p, "C06/R7 token-enum-vs-character"), mapOrderRule(p, "C06/R8 enum-inlining-order-independent", "the loops over Go maps that decide which accesses of a cross-module TypeScript enum are inlined and which keep the enum object alive are independent of the iteration order (a decision that depends on which property the map happened to yield last inlines some members and drops the object the others still refer to; same analysis as C08/R1)", mentionsTSEnum, 1)}
@@ -25,19 +25,19 @@ var c06EffectEscapes = []string{
 }
 
 var c06SkipExceptions = ExcTable{
-	"js_parser.(*parser).skipTypeScriptTypeWithFlags calls log.AddError":   "two direct errors (tuple label `[const: …]`/`[keyword: …]` and abstract-new misuse) that bypass the lexer's log suppression; each needs input that is a syntax error under the non-type interpretation too, so no valid program gains a diagnostic (triaged F6)",
-	"js_parser.(*parser).skipTypeScriptTypeParameters calls log.AddError":  "misplaced `in`/`out`/`const` variance modifiers: the input is invalid TypeScript under every interpretation (triaged F6)",
-	"js_parser.(*parser).skipTypeScriptInterfaceStmt store p.js_parser.parser.localTypeNames": "type-level bookkeeping: remembers that the name denotes a type so that `export { T }` can be elided (the documented elision of type-only exports); never consulted for value names",
-	"js_parser.(*parser).skipTypeScriptTypeStmt store p.js_parser.parser.localTypeNames":      "type-level bookkeeping: remembers that the name denotes a type so that `export { T }` can be elided (the documented elision of type-only exports); never consulted for value names",
-	"js_parser.(*parser).parseExportClause calls storeNameInRef":            "reached when skipping `export type { … }`: stores identifier text in the parser's name arena (append-only scratch storage); the parsed clause is discarded",
-	"js_parser.(*parser).storeNameInRef store p.js_parser.parser.allocatedNames": "append-only name arena used to hand out Ref-encoded slices; unused entries have no effect on the AST",
-	"js_parser.(*parser).parseExportClause calls log.AddError":              "reached when skipping `export type { … }`: reports a reserved word used as an export name — a syntax error regardless of `type`",
-	"js_parser.(*parser).parseClauseAlias calls log.AddError":               "reached when skipping `export type { … }`/`import type { … }`: reports an invalid string alias (lone surrogate) — a syntax error regardless of `type`",
-	"js_parser.(*parser).parsePath calls log.AddErrorWithNotes":             "reached when skipping `import type … from`/`export type … from`: reports malformed import attributes — a syntax error regardless of `type`",
-	"js_parser.(*parser).maybeWarnAboutAssertKeyword calls log.AddMsgID":    "deprecation warning for the `assert` keyword after the path of a type-only import/export; a diagnostic, not output",
-	"js_parser.(*parser).checkForUnrepresentableIdentifier calls log.AddError": "reports identifiers that cannot be represented with charset=ascii on targets without unicode escapes; only reached from clause aliases of skipped `export type` clauses; diagnostic only",
+	"js_parser.(*parser).skipTypeScriptTypeWithFlags calls log.AddError":                                        "two direct errors (tuple label `[const: …]`/`[keyword: …]` and abstract-new misuse) that bypass the lexer's log suppression; each needs input that is a syntax error under the non-type interpretation too, so no valid program gains a diagnostic (triaged F6)",
+	"js_parser.(*parser).skipTypeScriptTypeParameters calls log.AddError":                                       "misplaced `in`/`out`/`const` variance modifiers: the input is invalid TypeScript under every interpretation (triaged F6)",
+	"js_parser.(*parser).skipTypeScriptInterfaceStmt store p.js_parser.parser.localTypeNames":                   "type-level bookkeeping: remembers that the name denotes a type so that `export { T }` can be elided (the documented elision of type-only exports); never consulted for value names",
+	"js_parser.(*parser).skipTypeScriptTypeStmt store p.js_parser.parser.localTypeNames":                        "type-level bookkeeping: remembers that the name denotes a type so that `export { T }` can be elided (the documented elision of type-only exports); never consulted for value names",
+	"js_parser.(*parser).parseExportClause calls storeNameInRef":                                                "reached when skipping `export type { … }`: stores identifier text in the parser's name arena (append-only scratch storage); the parsed clause is discarded",
+	"js_parser.(*parser).storeNameInRef store p.js_parser.parser.allocatedNames":                                "append-only name arena used to hand out Ref-encoded slices; unused entries have no effect on the AST",
+	"js_parser.(*parser).parseExportClause calls log.AddError":                                                  "reached when skipping `export type { … }`: reports a reserved word used as an export name — a syntax error regardless of `type`",
+	"js_parser.(*parser).parseClauseAlias calls log.AddError":                                                   "reached when skipping `export type { … }`/`import type { … }`: reports an invalid string alias (lone surrogate) — a syntax error regardless of `type`",
+	"js_parser.(*parser).parsePath calls log.AddErrorWithNotes":                                                 "reached when skipping `import type … from`/`export type … from`: reports malformed import attributes — a syntax error regardless of `type`",
+	"js_parser.(*parser).maybeWarnAboutAssertKeyword calls log.AddMsgID":                                        "deprecation warning for the `assert` keyword after the path of a type-only import/export; a diagnostic, not output",
+	"js_parser.(*parser).checkForUnrepresentableIdentifier calls log.AddError":                                  "reports identifiers that cannot be represented with charset=ascii on targets without unicode escapes; only reached from clause aliases of skipped `export type` clauses; diagnostic only",
 	"js_parser.(*parser).checkForUnrepresentableIdentifier store p.js_parser.parser.unrepresentableIdentifiers": "de-duplication set for the diagnostic above",
-	"js_parser.(*parser).saveExprCommentsHere store p.js_parser.parser.exprComments": "records leading comments keyed by source location for expressions parsed later at that location; entries for skipped type syntax are never looked up",
+	"js_parser.(*parser).saveExprCommentsHere store p.js_parser.parser.exprComments":                            "records leading comments keyed by source location for expressions parsed later at that location; entries for skipped type syntax are never looked up",
 }
 
 func c06Roots(p *Prog) []*ssa.Function {
